@@ -155,17 +155,18 @@ PROPS = {
     ),
     'C18': dict(
         level='proof',
-        contracts=['C18', 'C12'],
+        contracts=['C18', 'C12', 'collect'],
         frames=[],
         technique='deductive: loop-invariant VCs (three nested loops, cut lemmas) from the real AST of parse_qsl over z3 strings, '
                   'z3 then cvc5; bounded check of list promotion and of the encode->parse round trip as replay harness',
         explanation='parse_qsl never raises and terminates (variant L - i); every outer iteration starts at a segment start and consumes '
                     'exactly one &-separated segment; the key is the separator-free run up to the first = or &, the value the &-free run '
                     'after the =; empty keys emit nothing; both are decoded with + -> space and unquote.',
-        level_text='Proof of totality, termination and exact segment/key/value scanning for every input string. List promotion of '
-                   'repeated keys (nested add) and the library encoder/decoder inverse are decided by the bounded check.',
+        level_text='Proof of totality, termination and exact segment/key/value scanning for every input string, and of the list promotion of '
+                   'repeated keys (nested add: first value as it is, one shared list [first, second, ...] in order afterwards). The library '
+                   'encoder/decoder inverse is decided by the bounded check.',
         level_note='unquote / replace are uninterpreted total functions; only the setitem mode (the one ombott uses) is under contract; '
-                   'the nested add is a callee (bounded).',
+                   'the nested add is a callee with its own contract (contracts/collect.py: QslAdd).',
         trusted_base=['urllib.parse.unquote total', 'uniqueness of the decomposition of a string into &-segments (meta-argument)'],
     ),
     'C03': dict(
@@ -258,15 +259,20 @@ PROPS = {
         level_note='Bounds are stated in coverage.bounded.bound.',
     ),
     'C07': dict(
-        level='other', contracts=['C07'], frames=[],
+        level='other', contracts=['C07', 'collect'], frames=[],
         technique='bounded run-time contract check: encode (independent RFC 7578 encoder) -> POST through Ombott.__call__ -> compare forms/files',
         explanation='BOUNDED field lists, names, contents, boundaries, thresholds and framings; proved: BytesIOProxy read/seek/tell stay inside the '
-                    'window [_st,_end) of the buffered body (no byte of another part) and return exactly the window slice.',
-        level_text='Bounded contract check (never counted as proved) for the round trip; proved window arithmetic of BytesIOProxy.',
+                    'window [_st,_end) of the buffered body (no byte of another part) and return exactly the window slice; _collect_multipart puts every '
+                    'item, in submission order, into post and into exactly one of forms / files (upload wrapper built from this very item), a '
+                    'repeated name as one flat list per view (loop invariant: view == recursive specification, for the three views).',
+        level_text='Bounded contract check (never counted as proved) for the round trip; proved: window arithmetic of BytesIOProxy, the '
+                   'collection into forms / files / POST with list promotion (_collect_multipart). The pairing of sections into fields '
+                   '(FieldStorage.iter_items/read), header-parameter parsing (parse_header) and the section markup are bounded only for this '
+                   'property, so the level stays `other`.',
         level_note='Bounds are stated in coverage.bounded.bound.',
     ),
     'C12': dict(
-        level='other', contracts=['C05', 'body_read', 'C18', 'C12', 'fieldstorage', 'body_access', 'C03'], frames=['errors_map_const'],
+        level='other', contracts=['C05', 'body_read', 'C18', 'C12', 'fieldstorage', 'body_access', 'C03', 'collect'], frames=['errors_map_const'],
         technique='bounded run-time contract check of grammar-mutated bodies through Ombott.__call__ (status class, delivered fields complete); '
                   'proved exception frames of _iter_chunked, _body_read, _body, _raise, _get_body_string, json, POST, FieldStorage.read; termination of the readers and of parse_qsl',
         explanation='BOUNDED grammar mutations, truncations, byte mutations, small-scope bodies; proved: _iter_chunked raises only BodyParsingError, '
